@@ -386,17 +386,21 @@ def in_window(e, rd, nots_in, rd0_off):
     return e["age"] <= rd
 
 
-def walk(vis, cos, s, nots_in, rd0_off, chosen):
+def walk(vis, cos, s, nots_in, rd0_off, chosen, hyp=None):
     k, thr = s["k"], s["thr"]
     out, seen = [], set()
+    rd = s["rd"] - 1 if (hyp == "window-exclusive" and s["rd"] > 0) else s["rd"]
     for t in s["tiers"]:
         if t == "E":
-            pool = [e for e in vis if in_window(e, s["rd"], nots_in, rd0_off)]
+            pool = [e for e in vis if in_window(e, rd, nots_in, rd0_off)]
         elif t == "C":
             pool = [e for e in vis if _cluster_key(e) in chosen]
         else:
             pool = list(vis)
-        cand = [e for e in pool if cos[e["id"]] >= thr - TOL]
+        if hyp == "threshold-strict":
+            cand = [e for e in pool if cos[e["id"]] > thr + TOL]
+        else:
+            cand = [e for e in pool if cos[e["id"]] >= thr - TOL]
         cand.sort(key=lambda e: (-round(cos[e["id"]], 9), e["id"]))
         for e in cand[:k]:
             if e["id"] in seen:
@@ -408,7 +412,9 @@ def walk(vis, cos, s, nots_in, rd0_off, chosen):
     return out
 
 
-def reference(eps, q, s):
+def reference(eps, q, s, hyp=None):
+    """hyp=None: the reference model.  hyp in {"threshold-strict", "window-exclusive"}: the model with one
+    hypothesised boundary slip, used only to give a mismatch a telling signature."""
     qv = QVEC[q]
     owner = scope_owner(s)
     vis = [e for e in eps if owner is None or e["owner"] == owner]
@@ -424,7 +430,7 @@ def reference(eps, q, s):
     for ni in nots_opts:
         for r0 in rd0_opts:
             for ch in combos:
-                ids = frozenset(walk(vis, cos, s, ni, r0, ch))
+                ids = frozenset(walk(vis, cos, s, ni, r0, ch, hyp))
                 if ids not in sets:
                     sets.append(ids)
     return {"vis": vis, "cos": cos, "sets": sets, "cluster_can": can}
@@ -518,24 +524,20 @@ def check(eps, q, s, getres, info=None):
                     "hits %s are admitted by none of the tiers %s (ages %s, exact_recent_days=%s, clusters_top_m=%s); %s" % (
                         not_adm, s["tiers"], [by_id[i]["age"] for i in not_adm], s["rd"], s["tm"], where)))
 
-    # ---- reference set
+    # ---- reference set (with a rerank layer on, the multiset is compared with the layer-off run below, and
+    #      the layer-off setting is itself an enumerated input compared with the model)
     got = frozenset(ids)
-    if not out and got not in ref["sets"]:
+    if not out and not rerank_on and got not in ref["sets"]:
         prim = ref["sets"][0]
         missing = sorted(prim - got)
         extra = sorted(got - prim)
-        sig = "select:wrong-set"
-        if missing:
-            m0 = by_id[missing[0]]
-            if abs(cos[missing[0]] - thr) <= TOL:
-                sig = "threshold:boundary-excluded"
-            elif m0["age"] is not None and m0["age"] == s["rd"] and "E" in s["tiers"]:
-                sig = "window:boundary-excluded"
-            elif owner is not None:
-                sig = "select:missing:scope=%s" % s["scope"][0]
-            else:
-                sig = "select:missing"
-        elif extra:
+        if got in reference(eps, q, s, "threshold-strict")["sets"]:
+            sig = "threshold:boundary-excluded"
+        elif "E" in s["tiers"] and got in reference(eps, q, s, "window-exclusive")["sets"]:
+            sig = "window:boundary-excluded"
+        elif missing:
+            sig = "select:missing" + ("" if owner is None else ":scope=%s" % s["scope"][0])
+        else:
             sig = "select:extra"
         out.append((sig, "retrieved id set %s, reference model admits %s (missing %s, extra %s; cos %s); %s" % (
             sorted(got), [sorted(x) for x in ref["sets"]], missing, extra,
